@@ -176,6 +176,9 @@ def f_split_join(g):
     if k == 0:
         w = g.word(); return "split " + " ".join([g.ALC(), g.S(w)] + ([g.C(r.choice(SETS))] if r.random() < 0.5 else []))
     strs = [g.word() for _ in range(r.choice([0, 1, 2, 3, 6]))]
+    if strs and r.random() < 0.35:            # empty strings first / in the middle / last: the separators around them stay
+        for _ in range(r.choice([1, 1, 2])):
+            strs[r.choice([0, 0, len(strs) - 1, r.randrange(len(strs))])] = b""
     lst = ",".join(hx(s) for s in strs) if strs else "-"
     if k == 1:
         sep = [g.C(r.choice([b"", b", ", b"-", b"\xe2\x82\xac"]))] if r.random() < 0.5 else []
@@ -400,6 +403,9 @@ def build_and_run(cases, numbers, cfg, flags, objs, scratch, nchunks=16):
 
 
 DIRECTED = [
+    # joins whose first / last / every string is empty, both forms, with and without a separator
+    "gm join H AS:-,62,63 C:2c", "gm join R AS:-,-,62 C:2c20", "gm join D:0:- AS:-,62,63 C:2c", "gm join H AS:61,-,- C:2d", "gm join D:4:7a AS:61,-,- C:2d",
+    "gm join H AS:-,-,- C:2c", "gm join R AS:-,62", "gm join H AS:- C:2c", "gm join D:0:- AS:-,-,- C:e282ac",
     # literal sizes around the small-string sizes (sizeof of a literal vs strlen), every input kind in every position
     "gm append D:0:- L:30313233343536373839616263646566", "gm append D:16:61 L:303132333435363738396162636465",
     "gm copy H L:3031323334353637383961626364656667", "gm copy R P:30313233343536373839616263646566", "gm copy D:3:616263 B:78797a7a7a:2",
